@@ -394,3 +394,116 @@ func (p *Prog) groupOf(fb *FuncBody, depth int) []*FuncBody {
 	}
 	return out
 }
+
+// passThroughArg: when call is to a declared function of the module that yields one of its own parameters, unchanged, as its
+// last result on every return (a "finish(err) error { …; return err }" helper), the argument bound to that parameter.
+func passThroughArg(p *Prog, info *types.Info, call *ast.CallExpr) ast.Expr {
+	fn, ok := callee(info, call).(*types.Func)
+	if !ok {
+		return nil
+	}
+	h := p.DeclOf(fn)
+	if h == nil || h.Decl == nil || h.Body == nil || !strings.HasPrefix(h.Pkg.PkgPath, Mod) {
+		return nil
+	}
+	hinfo := h.Info()
+	var params []*types.Var
+	for _, fld := range h.Type.Params.List {
+		for _, id := range fld.Names {
+			if v, ok := hinfo.Defs[id].(*types.Var); ok {
+				params = append(params, v)
+			} else {
+				params = append(params, nil)
+			}
+		}
+		if len(fld.Names) == 0 {
+			params = append(params, nil)
+		}
+	}
+	var ret *types.Var
+	nRet, okAll := 0, true
+	inspectBody(h.Body, func(n ast.Node) bool {
+		switch x := n.(type) {
+		case *ast.ReturnStmt:
+			nRet++
+			res := errResult(x)
+			v := (*types.Var)(nil)
+			if res != nil {
+				v = varOf(hinfo, res)
+				if v == nil {
+					// `x.err = err; …; return x.err`: a place assigned exactly once, unconditionally, from a parameter
+					var from *types.Var
+					nAs := 0
+					inspectDeep(h.Body, func(m ast.Node) bool {
+						if as, ok := m.(*ast.AssignStmt); ok {
+							for i, l := range as.Lhs {
+								if exprStr(l) == exprStr(res) {
+									nAs++
+									top := false
+									for _, st := range h.Body.List {
+										if st == ast.Stmt(as) {
+											top = true
+										}
+									}
+									if top && len(as.Lhs) == len(as.Rhs) && as.Pos() < x.Pos() {
+										from = varOf(hinfo, as.Rhs[i])
+									}
+								}
+							}
+						}
+						return true
+					})
+					if nAs == 1 {
+						v = from
+					}
+				}
+			}
+			if v == nil || (ret != nil && ret != v) {
+				okAll = false
+			}
+			ret = v
+		case *ast.AssignStmt:
+			for _, l := range x.Lhs {
+				for _, pv := range params {
+					if pv != nil && varOf(hinfo, l) == pv {
+						okAll = false // a reassigned parameter is not passed through
+					}
+				}
+			}
+		case *ast.UnaryExpr:
+			if x.Op == token.AND {
+				for _, pv := range params {
+					if pv != nil && varOf(hinfo, x.X) == pv {
+						okAll = false
+					}
+				}
+			}
+		}
+		return true
+	})
+	if !okAll || nRet == 0 || ret == nil {
+		return nil
+	}
+	for i, pv := range params {
+		if pv == ret && i < len(call.Args) && call.Ellipsis == token.NoPos {
+			return call.Args[i]
+		}
+	}
+	return nil
+}
+
+// unwrapPassThrough strips pass-through helper calls around an expression.
+func unwrapPassThrough(p *Prog, info *types.Info, e ast.Expr) ast.Expr {
+	for i := 0; i < 4 && e != nil; i++ {
+		call, ok := ast.Unparen(e).(*ast.CallExpr)
+		if !ok {
+			return e
+		}
+		arg := passThroughArg(p, info, call)
+		if arg == nil {
+			return e
+		}
+		e = arg
+	}
+	return e
+}
